@@ -53,7 +53,18 @@ def tagstr(tag):
     return "u%dd%dv%d" % tuple(tag)
 
 
-def content(us, tag, cached):
+LOOP = "\\\n% for i in (0, 1):\nL${loop.index}\\\n% for j in (0, 1):\nl${loop.index}${loop.parent.index}\\\n% endfor\n\\\n% endfor\n"
+LOOP_TEXT = "L0l00l10L1l01l11"
+
+
+def content(us, tag, cached, loops=False):
+    t = tagstr(tag)
+    if loops and us["kind"] in ("plain", "inc"):
+        return _content(us, tag, cached) + LOOP
+    return _content(us, tag, cached)
+
+
+def _content(us, tag, cached):
     t = tagstr(tag)
     head = '<%%! VTAG = "%s" %%>' % t
     kind = us["kind"]
@@ -80,7 +91,14 @@ def adjust_uri(ref, relativeto):
     return posixpath.join(posixpath.dirname(relativeto), ref)
 
 
-def expected_text(tag, x, uspecs, nested, cached):
+def expected_text(tag, x, uspecs, nested, cached, loops=False):
+    us = uspecs[tag[0]]
+    if loops and us["kind"] in ("plain", "inc"):
+        return _expected_text(tag, x, uspecs, nested, cached, loops) + LOOP_TEXT
+    return _expected_text(tag, x, uspecs, nested, cached, loops)
+
+
+def _expected_text(tag, x, uspecs, nested, cached, loops):
     us = uspecs[tag[0]]
     t = tagstr(tag)
     kind = us["kind"]
@@ -96,7 +114,7 @@ def expected_text(tag, x, uspecs, nested, cached):
         raise LookupError("no nested template served for %r" % ref)
     sub = q.pop(0)
     if kind == "inc":
-        return own + expected_text(sub, x, uspecs, nested, cached) + c
+        return own + expected_text(sub, x, uspecs, nested, cached, loops) + c
     if kind == "ns":
         return own + "F%s(%s)" % (tagstr(sub), x)
     return "B%s[%s](%s)" % (tagstr(sub), x, own)
@@ -128,6 +146,7 @@ def _workload(rng, small=False):
         "fs_checks": rng.random() < 0.85,
         "moddir": rng.random() < 0.2,
         "cached": rng.random() < 0.3,
+        "loops": rng.random() < 0.35,
         "granularity": rng.choice(("coarse", "line", "line", "line", "opcode")),
         "strategy": rng.choice(("random", "random", "pct", "pct", "pb", "pb", "pb", "rr", "stall")),
         "auto_tick": 0.0,
@@ -431,7 +450,7 @@ class Harness:
         was = self.world.enabled
         self.world.enabled = False
         try:
-            m = self.world.put_file(p, content(self.uspecs[i], tag, self.cfg["cached"]))
+            m = self.world.put_file(p, content(self.uspecs[i], tag, self.cfg["cached"], self.cfg.get("loops", False)))
         finally:
             self.world.enabled = was
         self.cur[p] = (v, m)
@@ -614,7 +633,7 @@ class Harness:
         if top["tag"] is None:
             return
         try:
-            want = expected_text(top["tag"], x, self.uspecs, nested, self.cfg["cached"])
+            want = expected_text(top["tag"], x, self.uspecs, nested, self.cfg["cached"], self.cfg.get("loops", False))
         except LookupError as e:
             self.flag("render-crosstalk", "%s: render(%r): %s" % (name, uri, e))
             return
